@@ -198,6 +198,11 @@ def marshalVarcharColumn : GoVal → MRes
 /-- float32(rv.Float()) on a named float32 goes through float64: a signalling NaN comes back quiet -/
 def quiet32 (x : Nat) : Nat := if (x / 2^23) % 256 = 255 ∧ x % 2^23 ≠ 0 then x ||| 0x400000 else x
 
+/-- marshal.go encDate (repair of KF-C12-5): the day that contains the timestamp, + 2^31, in 4 bytes; a day number that
+    does not fit the 4 bytes of a date is an error (`x < 0 || x > math.MaxUint32`) -/
+def marshalDateMillis (ts : Int) : MRes :=
+  if ValueSpec.fitsU 4 (daysSinceEpoch ts + 2147483648) then .ok (some (encDateMillis ts)) else .err
+
 def marshalScalar (t : CqlTy) (g : GoVal) : MRes :=
   match t with
   | .ascii | .text | .varchar | .blob => marshalVarcharColumn g
@@ -235,8 +240,8 @@ def marshalScalar (t : CqlTy) (g : GoVal) : MRes :=
       | _ => .err)
   | .date => (match g with
       | .unset | .nil => .ok none
-      | .int .int64 false v => .ok (some (encDateMillis v))
-      | .time sec nsec => if timeIsZero sec nsec then .ok (some []) else .ok (some (encDateMillis (timeMillis sec nsec)))
+      | .int .int64 false v => marshalDateMillis v
+      | .time sec nsec => if timeIsZero sec nsec then .ok (some []) else marshalDateMillis (timeMillis sec nsec)
       | .str false s => if s = [] then .ok (some []) else .unmodelled
       | _ => .err)
   | .duration => (match g with
@@ -258,7 +263,8 @@ def marshalScalar (t : CqlTy) (g : GoVal) : MRes :=
       | .unset | .nil => .ok none
       | .ip b => (match ipTo4 b with
           | some v4 => .ok (some v4)
-          | none => .ok (ipTo16 b))
+          -- repair of KF-C12-10: a nil / empty net.IP is null, any other length than 4 / 16 is an error
+          | none => if b = [] then .ok none else optM (ipTo16 b))
       | .str false s => if s = [] then .err else .unmodelled
       | _ => .err)
   | _ => .unmodelled
